@@ -1,6 +1,7 @@
 from vf.props.common import *
 from vf.props.e4cfg import *
 LEVEL = 'other'
+JOBS = 6      # each obligation runs a portfolio of z3 processes on big-integer polynomials: memory-bound, keep the machine below saturation
 EXPLANATION = ('Hybrid, stated as such: the taps are obtained by concrete native execution of the real library built from the current tree '
                '(whole-conversion impulse responses of small rational ratios; every single-phase filter that the real _soxr_init designs, '
                'intercepted with ld --wrap); the DECIDING step is z3 on the exact polynomial in cos w: "exists a stop-band frequency where '
